@@ -91,6 +91,81 @@ Definition omapM {A B} (f : A -> outcome (option B)) : list A -> outcome (option
         end
     end.
 
+(* The element loops of map_primary's list / record / do_block arms (preserve_comments = false),
+   over the function that converts one nested token stream. *)
+Definition uncommented {A} (x : A) : commented A := Cm [] x None.   (* Commented::new / no comments kept *)
+
+Section Loops.
+  Variable parse : list item -> outcome tres.
+
+  (* `for pair in list_pairs { comment => (ignored) ; list_item => elements.push(…?) }` *)
+  Fixpoint list_loop (els : list lelem) : outcome (option (list (commented expr))) :=
+    match els with
+    | [] => Ok (Some [])
+    | LCom _ :: els' => list_loop els'
+    | LItem g _ :: els' =>
+        do e <- parse g;
+        match e with
+        | None => Ok None
+        | Some e' => do r <- list_loop els'; Ok (option_map (cons (uncommented e')) r)
+        end
+    end.
+
+  Definition key_of (k : rkeyi) : outcome (option rkey) :=
+    match k with
+    | RKId s | RKStr s => Ok (Some (KStatic s))
+    | RKDyn inner => do d <- parse inner; Ok (option_map KDyn d)
+    end.
+
+  Fixpoint rec_loop (els : list relem) : outcome (option (list (commented rentry))) :=
+    match els with
+    | [] => Ok (Some [])
+    | RCom _ :: els' => rec_loop els'
+    | RPairI k v _ :: els' =>
+        do key <- key_of k;
+        match key with
+        | None => Ok None
+        | Some key' =>
+            do val <- parse v;
+            match val with
+            | None => Ok None
+            | Some val' =>
+                do r <- rec_loop els'; Ok (option_map (cons (uncommented (REntry key' val'))) r)
+            end
+        end
+    | RShortI s _ :: els' =>
+        do r <- rec_loop els'; Ok (option_map (cons (uncommented (REntry (KShort s) ENull))) r)
+    | RSpreadI g _ :: els' =>
+        do e <- parse g;
+        match e with
+        | None => Ok None
+        | Some e' =>
+            do r <- rec_loop els'; Ok (option_map (cons (uncommented (REntry (KSpread e') ENull))) r)
+        end
+    end.
+
+  (* statements: Vec, return_expr starts as Commented::new(dummy Null), the last return_statement wins *)
+  Fixpoint do_loop (els : list delem) (stmts : list (commented expr)) (ret : commented expr)
+    : outcome tres :=
+    match els with
+    | [] => Ok (Some (EDo stmts ret))
+    | DStmt g _ :: els' =>
+        do e <- parse g;
+        match e with
+        | None => Ok None
+        | Some e' => do_loop els' (stmts ++ [uncommented e']) ret
+        end
+    | DComStmt _ _ :: els' => do_loop els' stmts ret
+    | DCom _ :: els' => do_loop els' stmts ret
+    | DRet g :: els' =>
+        do e <- parse g;
+        match e with
+        | None => Ok None
+        | Some e' => do_loop els' stmts (uncommented e')
+        end
+    end.
+End Loops.
+
 Section Parser.
   Variable tbl : ops_map.
   Variable imap : list (oprule * binop).            (* .map_infix arms *)
@@ -124,8 +199,6 @@ Section Parser.
     | Some o => Ok (match lhs, rhs with Some l, Some x => Some (EBin o l x) | _, _ => None end)
     | None => Panic                                  (* unreachable!() *)
     end.
-
-  Definition uncommented {A} (x : A) : commented A := Cm [] x None.   (* Commented::new / preserve_comments = false *)
 
   Fixpoint pexpr (fuel rbp : nat) (its : list item) {struct fuel} : outcome (tres * list item) :=
     match fuel with
@@ -210,51 +283,8 @@ Section Parser.
             Ok (Some (match builtin_of_name s with Some b => EBuiltin b | None => EId s end))
         | IInRef s => Ok (Some (EInRef s))
         | IExpr _ g => parse_items f g
-        | IList els =>
-            (* `for pair in list_pairs { comment => (ignored) ; list_item => elements.push(…?) }` *)
-            do r <- (fix go (els : list lelem) : outcome (option (list (commented expr))) :=
-                       match els with
-                       | [] => Ok (Some [])
-                       | LCom _ :: els' => go els'
-                       | LItem g _ :: els' =>
-                           do e <- parse_items f g;
-                           match e with
-                           | None => Ok None
-                           | Some e' => do r <- go els'; Ok (option_map (cons (uncommented e')) r)
-                           end
-                       end) els;
-            Ok (option_map EList r)
-        | IRecord els =>
-            do r <- (fix go (els : list relem) : outcome (option (list (commented rentry))) :=
-                       match els with
-                       | [] => Ok (Some [])
-                       | RCom _ :: els' => go els'
-                       | RPairI k v _ :: els' =>
-                           do key <- match k with
-                                     | RKId s | RKStr s => Ok (Some (KStatic s))
-                                     | RKDyn inner => do d <- parse_items f inner; Ok (option_map KDyn d)
-                                     end;
-                           match key with
-                           | None => Ok None
-                           | Some key' =>
-                               do val <- parse_items f v;
-                               match val with
-                               | None => Ok None
-                               | Some val' =>
-                                   do r <- go els'; Ok (option_map (cons (uncommented (REntry key' val'))) r)
-                               end
-                           end
-                       | RShortI s _ :: els' =>
-                           do r <- go els'; Ok (option_map (cons (uncommented (REntry (KShort s) ENull))) r)
-                       | RSpreadI g _ :: els' =>
-                           do e <- parse_items f g;
-                           match e with
-                           | None => Ok None
-                           | Some e' =>
-                               do r <- go els'; Ok (option_map (cons (uncommented (REntry (KSpread e') ENull))) r)
-                           end
-                       end) els;
-            Ok (option_map ERec r)
+        | IList els => do r <- list_loop (parse_items f) els; Ok (option_map EList r)
+        | IRecord els => do r <- rec_loop (parse_items f) els; Ok (option_map ERec r)
         | ILambda args body =>
             do b <- parse_items f body; Ok (option_map (ELam args) b)
         | ICond c t e =>
@@ -268,28 +298,7 @@ Section Parser.
                 | Some t'' => do e' <- parse_items f e; Ok (option_map (ECond c'' t'') e')
                 end
             end
-        | IDo els =>
-            (* statements: Vec, return_expr starts as Commented::new(dummy Null), the last
-               return_statement wins *)
-            (fix go (els : list delem) (stmts : list (commented expr)) (ret : commented expr)
-               : outcome tres :=
-               match els with
-               | [] => Ok (Some (EDo stmts ret))
-               | DStmt g _ :: els' =>
-                   do e <- parse_items f g;
-                   match e with
-                   | None => Ok None
-                   | Some e' => go els' (stmts ++ [uncommented e']) ret
-                   end
-               | DComStmt _ _ :: els' => go els' stmts ret
-               | DCom _ :: els' => go els' stmts ret
-               | DRet g :: els' =>
-                   do e <- parse_items f g;
-                   match e with
-                   | None => Ok None
-                   | Some e' => go els' stmts (uncommented e')
-                   end
-               end) els [] (uncommented ENull)
+        | IDo els => do_loop (parse_items f) els [] (uncommented ENull)
         | IAssign x v =>
             do v' <- parse_items f v; Ok (option_map (EAssign x) v')
         | IOp _ | IAccess _ | IDot _ | ICall _ => Panic     (* `_ => unreachable!` *)
@@ -302,6 +311,105 @@ Section Parser.
     | S f => do r <- pexpr f 0 its; Ok (fst r)
     end.
 End Parser.
+
+(* ------------------------------------------------------------------ 3. the same, as relations *)
+(* Successful conversions only (result Ok(e)): Expr rbp its t rest = `expr(pairs, rbp)` consumes a
+   prefix of its, returns Ok(t) and leaves rest; Loop rbp lhs its t rest = the while loop of `expr`
+   entered with lhs; Post = one map_postfix call; Prim = one map_primary call; Items =
+   pairs_to_expr_inner; Args / LEls / REls / DEls = the element loops. *)
+Section Rel.
+  Variable tbl : ops_map.
+  Variable imap : list (oprule * binop).
+  Variable pmap : list (oprule * prefix_ctor).
+
+  Inductive Expr : nat -> list item -> expr -> list item -> Prop :=
+  | E_prefix rbp r p its x mid u t rest :
+      ops_get tbl r = Some (Prefix, p) ->
+      Expr (p - 1) its x mid ->
+      map_prefix pmap r (Some x) = Ok (Some u) ->
+      Loop rbp u mid t rest ->
+      Expr rbp (IOp r :: its) t rest
+  | E_primary rbp i its x t rest :
+      item_op i = None -> Prim i x -> Loop rbp x its t rest -> Expr rbp (i :: its) t rest
+  with Loop : nat -> expr -> list item -> expr -> list item -> Prop :=
+  | L_stop rbp lhs its l : lbp tbl its = Ok l -> l <= rbp -> Loop rbp lhs its lhs its
+  | L_infix rbp lhs i r a p its rhs mid u t rest :
+      item_op i = Some r -> ops_get tbl r = Some (Infix a, p) -> rbp < p ->
+      Expr (match a with ALeft => p | ARight => p - 1 end) its rhs mid ->
+      map_infix imap (Some lhs) r (Some rhs) = Ok (Some u) ->
+      Loop rbp u mid t rest ->
+      Loop rbp lhs (i :: its) t rest
+  | L_postfix rbp lhs i r p its u t rest :
+      item_op i = Some r -> ops_get tbl r = Some (Postfix, p) -> rbp < p ->
+      Post lhs i u -> Loop rbp u its t rest ->
+      Loop rbp lhs (i :: its) t rest
+  with Post : expr -> item -> expr -> Prop :=
+  | Po_fact lhs : Post lhs (IOp R_factorial) (EFact lhs)
+  | Po_access lhs inner i : Items inner i -> Post lhs (IAccess inner) (EAccess lhs i)
+  | Po_dot lhs f : Post lhs (IDot f) (EDot lhs f)
+  | Po_call lhs args es : Args args es -> Post lhs (ICall args) (ECall lhs es)
+  with Prim : item -> expr -> Prop :=
+  | P_num x : Prim (INum x) (ENum x)
+  | P_str s : Prim (IStr s) (EStr s)
+  | P_bool b : Prim (IBool b) (EBool b)
+  | P_null : Prim INull ENull
+  | P_builtin s b : builtin_of_name s = Some b -> Prim (IIdent s) (EBuiltin b)
+  | P_ident s : builtin_of_name s = None -> Prim (IIdent s) (EId s)
+  | P_inref s : Prim (IInRef s) (EInRef s)
+  | P_expr b g t : Items g t -> Prim (IExpr b g) t
+  | P_list els es : LEls els es -> Prim (IList els) (EList es)
+  | P_rec els es : REls els es -> Prim (IRecord els) (ERec es)
+  | P_lam args body b : Items body b -> Prim (ILambda args body) (ELam args b)
+  | P_cond c t e c' t' e' : Items c c' -> Items t t' -> Items e e' -> Prim (ICond c t e) (ECond c' t' e')
+  | P_do els t : DEls els [] (uncommented ENull) t -> Prim (IDo els) t
+  | P_assign x v v' : Items v v' -> Prim (IAssign x v) (EAssign x v')
+  with Items : list item -> expr -> Prop :=
+  | I_intro its t rest : Expr 0 its t rest -> Items its t
+  with Args : list (list item) -> list expr -> Prop :=
+  | A_nil : Args [] []
+  | A_cons g e gs es : Items g e -> Args gs es -> Args (g :: gs) (e :: es)
+  with LEls : list lelem -> list (commented expr) -> Prop :=
+  | LE_nil : LEls [] []
+  | LE_com s els es : LEls els es -> LEls (LCom s :: els) es
+  | LE_item g eol e els es : Items g e -> LEls els es -> LEls (LItem g eol :: els) (uncommented e :: es)
+  with REls : list relem -> list (commented rentry) -> Prop :=
+  | RE_nil : REls [] []
+  | RE_com s els es : REls els es -> REls (RCom s :: els) es
+  | RE_pair_id s v eol v' els es :
+      Items v v' -> REls els es ->
+      REls (RPairI (RKId s) v eol :: els) (uncommented (REntry (KStatic s) v') :: es)
+  | RE_pair_str s v eol v' els es :
+      Items v v' -> REls els es ->
+      REls (RPairI (RKStr s) v eol :: els) (uncommented (REntry (KStatic s) v') :: es)
+  | RE_pair_dyn inner k v eol v' els es :
+      Items inner k -> Items v v' -> REls els es ->
+      REls (RPairI (RKDyn inner) v eol :: els) (uncommented (REntry (KDyn k) v') :: es)
+  | RE_short s eol els es :
+      REls els es -> REls (RShortI s eol :: els) (uncommented (REntry (KShort s) ENull) :: es)
+  | RE_spread g eol e els es :
+      Items g e -> REls els es ->
+      REls (RSpreadI g eol :: els) (uncommented (REntry (KSpread e) ENull) :: es)
+  with DEls : list delem -> list (commented expr) -> commented expr -> expr -> Prop :=
+  | DE_nil stmts ret : DEls [] stmts ret (EDo stmts ret)
+  | DE_stmt g c e els stmts ret t :
+      Items g e -> DEls els (stmts ++ [uncommented e]) ret t -> DEls (DStmt g c :: els) stmts ret t
+  | DE_comstmt s c els stmts ret t : DEls els stmts ret t -> DEls (DComStmt s c :: els) stmts ret t
+  | DE_com s els stmts ret t : DEls els stmts ret t -> DEls (DCom s :: els) stmts ret t
+  | DE_ret g e els stmts ret t :
+      Items g e -> DEls els stmts (uncommented e) t -> DEls (DRet g :: els) stmts ret t.
+End Rel.
+
+Scheme Expr_mind := Minimality for Expr Sort Prop
+  with Loop_mind := Minimality for Loop Sort Prop
+  with Post_mind := Minimality for Post Sort Prop
+  with Prim_mind := Minimality for Prim Sort Prop
+  with Items_mind := Minimality for Items Sort Prop
+  with Args_mind := Minimality for Args Sort Prop
+  with LEls_mind := Minimality for LEls Sort Prop
+  with REls_mind := Minimality for REls Sort Prop
+  with DEls_mind := Minimality for DEls Sort Prop.
+Combined Scheme parse_rel_mutind from Expr_mind, Loop_mind, Post_mind, Prim_mind, Items_mind,
+  Args_mind, LEls_mind, REls_mind, DEls_mind.
 
 (* number of pairs in a token stream, nested ones included; 4 * this + 4 is ample fuel *)
 Fixpoint item_size (i : item) : nat :=
